@@ -21,6 +21,7 @@ import (
 	"encoding/json"
 	"fmt"
 	"reflect"
+	"strings"
 	"sync"
 
 	genjs "github.com/alecthomas/jsonschema"
@@ -129,8 +130,56 @@ func Validate(v interface{}) *ValidateRecorder {
 
 	val := reflect.ValueOf(v)
 	traverseGo(&val, nil, vr.record)
+	vr.recordNullElements(val, "")
 
 	return vr
+}
+
+// recordNullElements reports null elements of lists and null values of maps
+// whose element type is a pointer (e.g. `rules: [null]`): the JSON schema
+// check never sees them (TrimNull), traverseGo stops at them, and the code
+// using the spec dereferences them.
+func (vr *ValidateRecorder) recordNullElements(val reflect.Value, path string) {
+	switch val.Kind() {
+	case reflect.Ptr, reflect.Interface:
+		if !val.IsNil() {
+			vr.recordNullElements(val.Elem(), path)
+		}
+	case reflect.Struct:
+		t := val.Type()
+		for i := 0; i < t.NumField(); i++ {
+			field := t.Field(i)
+			if field.PkgPath != "" {
+				continue
+			}
+			name := path
+			if !field.Anonymous {
+				name = path + "." + getFieldYAMLName(&field)
+			}
+			vr.recordNullElements(val.Field(i), name)
+		}
+	case reflect.Slice, reflect.Array:
+		for i := 0; i < val.Len(); i++ {
+			elem := val.Index(i)
+			name := fmt.Sprintf("%s.%d", path, i)
+			if elem.Kind() == reflect.Ptr && elem.IsNil() {
+				vr.GeneralErrs = append(vr.GeneralErrs, fmt.Sprintf("%s: null is not allowed", strings.TrimPrefix(name, ".")))
+				continue
+			}
+			vr.recordNullElements(elem, name)
+		}
+	case reflect.Map:
+		iter := val.MapRange()
+		for iter.Next() {
+			elem := iter.Value()
+			name := fmt.Sprintf("%s.%v", path, iter.Key())
+			if elem.Kind() == reflect.Ptr && elem.IsNil() {
+				vr.GeneralErrs = append(vr.GeneralErrs, fmt.Sprintf("%s: null is not allowed", strings.TrimPrefix(name, ".")))
+				continue
+			}
+			vr.recordNullElements(elem, name)
+		}
+	}
 }
 
 func getSchemaMeta(t reflect.Type) (*schemaMeta, error) {
